@@ -2212,7 +2212,7 @@ traverseStack is the private recursive helper method for the stack.traverse meth
 method will traverse either a [Stack] *OR* [Stack] alias type fashioned by the user.
 */
 func (r stack) traverseStack(u any, idx int, indices ...int) (slice any, ok, done bool) {
-	if s, sOK := stackTypeAliasConverter(u); sOK {
+	if s, sOK := stackTypeAliasConverter(u); sOK && s.IsInit() {
 		// End of the line :)
 		if len(indices) <= 1 {
 			slice = u
